@@ -541,6 +541,8 @@ def run(ctx):
     # compress / expand work on physical values (shared with C20-R6)
     from .c20 import r6_bscale
     r6_bscale(ctx, prog, rule="C15-R7")
+    from .c20 import r7_fresh
+    r7_fresh(ctx, prog, rule="C15-R8")
 
 
 def r6_written(ctx, prog):
